@@ -19,7 +19,7 @@ namespace XalanModel.C13
 
 inductive Axis where
   | child | descendant | descendantOrSelf | followingSibling | precedingSibling | self | parent
-  | ancestor | ancestorOrSelf | following | preceding
+  | ancestor | ancestorOrSelf | following | preceding | attrAxis | nsAxis
 deriving Repr, DecidableEq, Inhabited
 
 inductive Test where
@@ -45,21 +45,30 @@ inductive Expr where
   | and (a b : Expr) | or (a b : Expr)
   | concat (a b : Expr) | contains (a b : Expr) | startsWith (a b : Expr)
   | normalizeSpace (e : Expr)
-  | attrOf (e : Expr) (q : QName)       -- `string((e)/@q)`
-  | attrCount (e : Expr)                -- `count((e)/@*)`
+  | var (i : Nat)                       -- `$x`: the i-th variable in scope, innermost first
+  | letIn (bind body : Expr)            -- `<xsl:variable select="bind"/>` followed by `body`
+deriving Repr, Inhabited
+
+/-- a member of a node-set: a tree node (element, text, comment, PI, document) at its location, or an attribute
+node of the element at `owner`, or (`isNs`) a namespace node — which the library represents by the declaring
+`xmlns` attribute node, so `owner` is the element that *declares* the prefix (name = ⟨"", prefix⟩, value = URI) -/
+inductive XNode where
+  | node (l : Loc)
+  | attr (owner : Loc) (isNs : Bool) (id : Nat) (name : QName) (value : String)
 deriving Repr, Inhabited
 
 inductive Value where
-  | ns (l : List Loc)
+  | ns (l : List XNode)
   | num (n : Int)
   | str (s : String)
   | bool (b : Bool)
 deriving Repr, Inhabited
 
 structure Ctx where
-  node : Loc
+  node : XNode
   pos : Nat
   size : Nat
+  vars : List Value       -- values of the variables in scope, innermost first
 deriving Repr, Inhabited
 
 def Axis.locs : Axis → Loc → List Loc
@@ -74,6 +83,8 @@ def Axis.locs : Axis → Loc → List Loc
   | .ancestorOrSelf, l => l :: l.ancestors
   | .following, l => l.following
   | .preceding, l => l.preceding
+  | .attrAxis, _ => []      -- attribute nodes are not tree nodes: see `Axis.xlocs`
+  | .nsAxis, _ => []
 
 /-- node test on a location; `sp` is consulted for `text()` and `node()` only -/
 def Test.accepts (sp : StripFn) (t : Test) (l : Loc) : Bool :=
@@ -87,9 +98,23 @@ def Test.accepts (sp : StripFn) (t : Test) (l : Loc) : Bool :=
   | .pi, .pi _ _ _ => true
   | _, _ => false
 
+def XNode.id : XNode → Nat
+  | .node l => l.id
+  | .attr _ _ i _ _ => i
+
+/-- only a text node can be stripped; an attribute stands or falls with its owner location -/
+def XNode.stripped (sp : StripFn) : XNode → Bool
+  | .node l => l.stripped sp
+  | .attr o _ _ _ _ => o.stripped sp
+
+/-- the same node in the physically stripped document -/
+def XNode.strip (sp : StripFn) : XNode → XNode
+  | .node l => .node (l.strip sp)
+  | .attr o k i q v => .attr (o.strip sp) k i q v
+
 /-- insert into a list ordered by node index unless a node with that index is present
 (`addNodeInDocOrder` for one indexed document) -/
-def insertDocOrder (x : Loc) : List Loc → List Loc
+def insertDocOrder (x : XNode) : List XNode → List XNode
   | [] => [x]
   | y :: ys =>
     if x.id < y.id then x :: y :: ys
@@ -97,9 +122,78 @@ def insertDocOrder (x : Loc) : List Loc → List Loc
     else y :: insertDocOrder x ys
 
 /-- document order, no duplicates -/
-def docOrder (l : List Loc) : List Loc := l.foldr insertDocOrder []
+def docOrder (l : List XNode) : List XNode := l.foldr insertDocOrder []
+
+/-- in-scope namespace declarations, nearest declaring element first; a prefix declared nearer shadows the same
+prefix further out -/
+def nsCollect : List Loc → List String → List XNode
+  | [], _ => []
+  | a :: rest, seen =>
+    match a.focus with
+    | .elem _ (some t) _ =>
+      let fresh := t.nss.filter fun d => !seen.contains d.2.1
+      fresh.map (fun d => XNode.attr a true d.1 ⟨"", d.2.1⟩ d.2.2) ++ nsCollect rest (seen ++ fresh.map (·.2.1))
+    | _ => nsCollect rest seen
+
+/-- namespace nodes of the element at `l` (none for other kinds of node), document order -/
+def Loc.nsNodes (l : Loc) : List XNode :=
+  match l.focus with
+  | .elem _ (some _) _ => docOrder (nsCollect (l :: l.ancestors) [])
+  | _ => []
+
+/-- attribute nodes of the element at `l`, document order -/
+def Loc.attrNodes (l : Loc) : List XNode :=
+  match l.focus with
+  | .elem _ (some t) _ => t.attrs.map fun a => .attr l false a.1 a.2.1 a.2.2
+  | _ => []
+
+/-- the axes from any kind of context node (XPath §2.2): an attribute has its owner as parent, no children and no
+siblings; what follows it are the owner's descendants and whatever follows the owner -/
+def Axis.xlocs : Axis → XNode → List XNode
+  | .attrAxis, .node l => l.attrNodes
+  | .nsAxis, .node l => l.nsNodes
+  | ax, .node l => (ax.locs l).map .node
+  | .self, .attr o k i q v => [.attr o k i q v]
+  | .descendantOrSelf, .attr o k i q v => [.attr o k i q v]
+  | .parent, .attr o _ _ _ _ => [.node o]
+  | .ancestor, .attr o _ _ _ _ => (o :: o.ancestors).map .node
+  | .ancestorOrSelf, .attr o k i q v => .attr o k i q v :: (o :: o.ancestors).map .node
+  | .following, .attr o _ _ _ _ => (o.descendants ++ o.following).map .node
+  | .preceding, .attr o _ _ _ _ => o.preceding.map .node
+  | _, .attr _ _ _ _ _ => []
+
+/-- principal node type of an axis (XPath §2.3) -/
+inductive Principal where
+  | elem | attr | ns
+deriving DecidableEq, Repr, Inhabited
+
+def Axis.isAttr : Axis → Principal
+  | .attrAxis => .attr
+  | .nsAxis => .ns
+  | _ => .elem
+
+/-- node test; `pr` is the principal node type of the step's axis (name tests and `*` select nodes of that type
+and nothing else) -/
+def Test.xaccepts (sp : StripFn) (pr : Principal) (t : Test) : XNode → Bool
+  | .node l => pr == .elem && t.accepts sp l
+  | .attr _ k _ q _ =>
+    match t with
+    | .name n => pr == (if k then .ns else .attr) && q == n
+    | .nsWild u => pr == .attr && !k && q.uri == u
+    | .anyElem => pr == (if k then .ns else .attr)
+    | .node => true
+    | _ => false
+
+/-- the document node of the tree the node lives in -/
+def XNode.root : XNode → XNode
+  | .node l => .node l.root
+  | .attr o _ _ _ _ => .node o.root
 
 def Loc.strVal (sp : StripFn) (l : Loc) : String := l.focus.strVal sp
+
+def XNode.strVal (sp : StripFn) : XNode → String
+  | .node l => l.strVal sp
+  | .attr _ _ _ _ v => v
 
 def natToString (n : Nat) : String := toString n
 def intToString (n : Int) : String := toString n
@@ -140,9 +234,9 @@ def predTruth (v : Value) (i : Nat) : Bool :=
   | v => v.toBool
 
 /-- keep the candidates (axis order) for which the predicate holds; `pred c i n` gets position and size -/
-def filterPred (pred : Loc → Nat → Nat → Option Bool) (cands : List Loc) : Option (List Loc) :=
+def filterPred (pred : XNode → Nat → Nat → Option Bool) (cands : List XNode) : Option (List XNode) :=
   let n := cands.length
-  let rec go : List Loc → Nat → Option (List Loc)
+  let rec go : List XNode → Nat → Option (List XNode)
     | [], _ => some []
     | c :: cs, i =>
       match pred c i n, go cs (i + 1) with
@@ -152,7 +246,7 @@ def filterPred (pred : Loc → Nat → Nat → Option Bool) (cands : List Loc) :
   go cands 1
 
 /-- merge the per-context results of a step -/
-def mergeStep (f : Loc → Option (List Loc)) : List Loc → Option (List Loc)
+def mergeStep (f : XNode → Option (List XNode)) : List XNode → Option (List XNode)
   | [] => some []
   | c :: cs =>
     match f c, mergeStep f cs with
@@ -170,7 +264,7 @@ def isSub (a b : List Char) : Bool :=    -- does `b` occur in `a`
 
 /-- a location step: `cands x` are the nodes selected from context node `x` (axis order, after the node test
 and the predicates); results over all context nodes merged into document order -/
-def stepV (cands : Loc → Option (List Loc)) : Option Value → Option Value
+def stepV (cands : XNode → Option (List XNode)) : Option Value → Option Value
   | some (.ns l) => (mergeStep cands l).map fun r => .ns (docOrder r)
   | _ => none
 
@@ -179,7 +273,7 @@ def unionV : Option Value → Option Value → Option Value
   | _, _ => none
 
 /-- `(e)[p]`: the node-set in document order, filtered with positions in that order -/
-def filterV (pred : Loc → Nat → Nat → Option Bool) : Option Value → Option Value
+def filterV (pred : XNode → Nat → Nat → Option Bool) : Option Value → Option Value
   | some (.ns l) => (filterPred pred l).map .ns
   | _ => none
 
@@ -194,28 +288,6 @@ def normSpace (s : String) : String := String.ofList (normSpaceAux s.toList fals
 
 def normSpaceV (sp : StripFn) (v : Option Value) : Option Value := v.map fun v => .str (normSpace (v.toStr sp))
 
-/-- the attributes of the node (attribute axis; only elements have any) -/
-def Loc.attrs (l : Loc) : List (QName × String) :=
-  match l.focus with
-  | .elem _ (some t) _ => t.attrs
-  | _ => []
-
-/-- value of the first attribute named `q` met on the nodes of a node-set in document order -/
-def firstAttr (q : QName) : List Loc → String
-  | [] => ""
-  | x :: xs =>
-    match x.attrs.find? (fun a => a.1 == q) with
-    | some a => a.2
-    | none => firstAttr q xs
-
-def attrOfV (q : QName) : Option Value → Option Value
-  | some (.ns l) => some (.str (firstAttr q l))
-  | _ => none
-
-def attrCountV : Option Value → Option Value
-  | some (.ns l) => some (.num ((l.map fun x => x.attrs.length).sum : Nat))
-  | _ => none
-
 def countV : Option Value → Option Value
   | some (.ns l) => some (.num l.length)
   | _ => none
@@ -223,11 +295,13 @@ def countV : Option Value → Option Value
 def stringV (sp : StripFn) (v : Option Value) : Option Value := v.map fun v => .str (v.toStr sp)
 def strlenV (sp : StripFn) (v : Option Value) : Option Value := v.map fun v => .num (strLen (v.toStr sp))
 
-def localNameOf (l : Loc) : String :=
-  match l.focus with
-  | .elem _ (some n) _ => n.name.loc
-  | .pi _ t _ => t
-  | _ => ""
+def localNameOf : XNode → String
+  | .node l =>
+    (match l.focus with
+     | .elem _ (some n) _ => n.name.loc
+     | .pi _ t _ => t
+     | _ => "")
+  | .attr _ _ _ q _ => q.loc
 
 def localNameV : Option Value → Option Value
   | some (.ns []) => some (.str "")
@@ -254,21 +328,21 @@ def strOp (sp : StripFn) (f : String → String → Value) : Option Value → Op
   | _, _ => none
 
 /-- predicate `p` evaluated for candidate `y` at position `i` of `n` -/
-def predFn (ev : Ctx → Option Value) : Loc → Nat → Nat → Option Bool :=
-  fun y i n => (ev ⟨y, i, n⟩).map (predTruth · i)
+def predFn (vars : List Value) (ev : Ctx → Option Value) : XNode → Nat → Nat → Option Bool :=
+  fun y i n => (ev ⟨y, i, n, vars⟩).map (predTruth · i)
 
 def Expr.eval (sp : StripFn) : Expr → Ctx → Option Value
   | .self, c => some (.ns [c.node])
   | .root, c => some (.ns [c.node.root])
   | .step base ax t, c =>
-    stepV (fun x => some ((ax.locs x).filter (t.accepts sp))) (base.eval sp c)
+    stepV (fun x => some ((ax.xlocs x).filter (t.xaccepts sp ax.isAttr))) (base.eval sp c)
   | .stepP base ax t p, c =>
-    stepV (fun x => filterPred (predFn (p.eval sp)) ((ax.locs x).filter (t.accepts sp))) (base.eval sp c)
+    stepV (fun x => filterPred (predFn c.vars (p.eval sp)) ((ax.xlocs x).filter (t.xaccepts sp ax.isAttr))) (base.eval sp c)
   | .stepPP base ax t p q, c =>
-    stepV (fun x => (filterPred (predFn (p.eval sp)) ((ax.locs x).filter (t.accepts sp))).bind
-      (filterPred (predFn (q.eval sp)))) (base.eval sp c)
+    stepV (fun x => (filterPred (predFn c.vars (p.eval sp)) ((ax.xlocs x).filter (t.xaccepts sp ax.isAttr))).bind
+      (filterPred (predFn c.vars (q.eval sp)))) (base.eval sp c)
   | .union a b, c => unionV (a.eval sp c) (b.eval sp c)
-  | .filter e p, c => filterV (predFn (p.eval sp)) (e.eval sp c)
+  | .filter e p, c => filterV (predFn c.vars (p.eval sp)) (e.eval sp c)
   | .position, c => some (.num c.pos)
   | .last, c => some (.num c.size)
   | .count e, c => countV (e.eval sp c)
@@ -289,16 +363,19 @@ def Expr.eval (sp : StripFn) : Expr → Ctx → Option Value
   | .contains a b, c => strOp sp (fun x y => .bool (isSub x.toList y.toList)) (a.eval sp c) (b.eval sp c)
   | .startsWith a b, c => strOp sp (fun x y => .bool (y.toList.isPrefixOf x.toList)) (a.eval sp c) (b.eval sp c)
   | .normalizeSpace e, c => normSpaceV sp (e.eval sp c)
-  | .attrOf e q, c => attrOfV q (e.eval sp c)
-  | .attrCount e, c => attrCountV (e.eval sp c)
+  | .var i, c => c.vars[i]?
+  | .letIn b body, c =>
+    match b.eval sp c with
+    | some v => body.eval sp ⟨c.node, c.pos, c.size, v :: c.vars⟩
+    | none => none
 
 /-! ### the correspondence between `D` and the physically stripped `D'` -/
 
 /-- node-sets are carried over by `Loc.strip`; strings, numbers, booleans are unchanged -/
 def Value.strip (sp : StripFn) : Value → Value
-  | .ns l => .ns (l.map (Loc.strip sp))
+  | .ns l => .ns (l.map (XNode.strip sp))
   | v => v
 
-def Ctx.strip (sp : StripFn) (c : Ctx) : Ctx := ⟨c.node.strip sp, c.pos, c.size⟩
+def Ctx.strip (sp : StripFn) (c : Ctx) : Ctx := ⟨c.node.strip sp, c.pos, c.size, c.vars.map (Value.strip sp)⟩
 
 end XalanModel.C13
